@@ -512,7 +512,7 @@ verif_harness! {
     }
 }
 
-//@ harness name=c6_roundtrip_ed prop=C01 tier=quick bits=2048 stub=1 est=35 desc="W: decrypt(encrypt(b)) == b on an arbitrary (masking, rotate) state (superset of all keys of the five lengths), every block; forward_quad / reverse_quad are uninterpreted keyed bijections, mutually inverse per (m, r) (leaf lemma c6_leaf_quad_inv)"
+//@ harness name=c6_roundtrip_ed prop=C01 tier=quick bits=2048 stub=1 est=30 desc="W: decrypt(encrypt(b)) == b on an arbitrary (masking, rotate) state (superset of all keys of the five lengths), every block; forward_quad / reverse_quad are uninterpreted keyed bijections, mutually inverse per (m, r) (leaf lemma c6_leaf_quad_inv)"
 verif_harness! {
     name: c6_roundtrip_ed,
     bytes: 256,
@@ -527,7 +527,7 @@ verif_harness! {
     }
 }
 
-//@ harness name=c6_roundtrip_de prop=C01 tier=quick bits=2048 stub=1 est=35 desc="W: encrypt(decrypt(b)) == b on an arbitrary (masking, rotate) state, every block; quads as uninterpreted keyed bijections"
+//@ harness name=c6_roundtrip_de prop=C01 tier=quick bits=2048 stub=1 est=30 desc="W: encrypt(decrypt(b)) == b on an arbitrary (masking, rotate) state, every block; quads as uninterpreted keyed bijections"
 verif_harness! {
     name: c6_roundtrip_de,
     bytes: 256,
